@@ -1,6 +1,6 @@
 import Wx.Job.C10b
 import Wx.Job.C10c
-import Wx.Job.Api
+import Wx.Job.ApiThm
 /-! # C10 — Controls run in send order within a priority; urgent before high before normal
 
 > Controls sent with the same priority are executed in the order they were sent, each exactly once, so awaiting the last
